@@ -24,6 +24,7 @@ RULE = (
     ' Round 6: values with CRLF / lone CR, long values whose only special character is a backslash, a 4000-character SM chart.'
     ' Round 7: tokenizer view of str(obj), == and != against other types, unrelated keys that are substrings of the multi-value keys.'
     ' Round 8: unrelated keys that need escaping (with None values) and the key NOTEDATA on charts.'
+    ' Round 9: multi-value values ending in a colon; charts differing by one edge line break must be unequal.'
 )
 EXHAUSTIVE_PART = "every model state (79 per property x 9 object/property pairs; 64 SM chart states) x every operation"
 ASSUMPTIONS = ["vmon/ref/dictmodel.py states the attribute/alias rule"]
